@@ -44,6 +44,12 @@ class Vec:
     def need(self):
         return self.off + 1 + (self.n - 1) * abs(self.inc) if self.n > 0 else 0
 
+    def span(self):
+        """(lowest, highest) flat index addressed, None if empty"""
+        if self.n <= 0:
+            return None
+        return (self.off, self.off + (self.n - 1) * abs(self.inc))
+
     def rules(self):
         r = []
         if self.inc == 0 or (self.positive_inc and self.inc < 0):
@@ -105,7 +111,13 @@ class Mat:
             return out
         s = self.struct
         for j in range(self.cols):
-            for i in range(self.rows):
+            if s == "gb":
+                irange = range(max(0, j - self.ku), min(self.rows, j + self.kl + 1))
+            elif s in ("sb", "hb", "tb"):
+                irange = range(j, min(self.rows, j + self.k + 1)) if self.uplo == "L" else range(max(0, j - self.k), min(self.rows, j + 1))
+            else:
+                irange = range(self.rows)
+            for i in irange:
                 if s == "full":
                     ok, r = True, i
                 elif s in ("sym", "herm", "tri"):
@@ -114,13 +126,11 @@ class Mat:
                         ok = False
                     r = i
                 elif s == "gb":
-                    ok = (j - self.ku <= i <= j + self.kl)
+                    ok = True
                     r = self.ku + i - j
                 else:  # sb, hb, tb
-                    if self.uplo == "L":
-                        ok, r = (0 <= i - j <= self.k), i - j
-                    else:
-                        ok, r = (0 <= j - i <= self.k), self.k + i - j
+                    ok = True
+                    r = (i - j) if self.uplo == "L" else (self.k + i - j)
                     if s == "tb" and self.diag == "U" and i == j:
                         ok = False
                 if ok:
@@ -129,6 +139,16 @@ class Mat:
 
     def footprint(self):
         return [f for _, f in self.entries()]
+
+    def span(self):
+        """(lowest, a lower bound of the highest) flat index of the structural footprint, None if empty;
+        exact for small matrices"""
+        if self.empty():
+            return None
+        if self.rows * self.cols <= 4096 and self.ld >= 0:
+            fp = self.footprint()
+            return (min(fp), max(fp)) if fp else None
+        return (self.off, self.off + (self.cols - 1) * self.ld)
 
     def get(self, buf):
         """logical dense matrix (symmetric/Hermitian completion, unit diagonal, zeros outside band/triangle)"""
@@ -611,17 +631,36 @@ def resolve(case):
     if not rules:
         return ACCEPT, "", ops, sem
     outs = [o for o in ops if "w" in o.mode]
-    work = any(o.footprint() for o in outs) if outs else all(o.footprint() for o in ops)
+    work = any(o.span() for o in outs) if outs else all(o.span() for o in ops)
     unsafe = False
     if work:
         for o in ops:
-            fp = o.footprint()
-            if not fp:
+            sp = o.span()
+            if sp is None:
                 continue
-            if min(fp) < 0 or max(fp) >= c.len[o.name]:
+            if sp[0] < 0 or sp[1] >= c.len[o.name]:
                 unsafe = True
             if (o.name, "off") in rules or (o.name, "inc") in rules or (o.name, "ld") in rules:
                 unsafe = True
         if any(r[1] == "type" for r in rules):
             unsafe = True
     return (REJECT if unsafe else OPEN), "rules violated: %r" % rules, ops, sem
+
+
+INT_MAX = 2 ** 31 - 1
+
+
+def int_overflow(case, ops):
+    """True if one of the extents the wrapper has to compute in C int arithmetic exceeds 2^31-1 (or an argument is
+    INT_MIN, whose absolute value is not representable): the known finding 'blas-int-overflow'"""
+    for v in case["kw"].values():
+        if isinstance(v, int) and not isinstance(v, bool) and v == -2 ** 31:
+            return True
+    for o in ops or []:
+        if o.kind == "vec":
+            ext = abs(o.off) + 1 + abs(o.n - 1) * abs(o.inc)
+        else:
+            ext = abs(o.off) + abs(o.cols - 1) * abs(o.ld) + abs(o.block_rows()) + max(abs(o.rows), abs(o.cols))
+        if ext > INT_MAX:
+            return True
+    return False
